@@ -387,6 +387,13 @@ Proof. intros. unfold psum. rewrite zrange_app by lia. rewrite map_app. apply qs
 Lemma psum_one : forall f a, psum f a 1 == f a.
 Proof. intros. unfold psum. rewrite zrange_one. simpl. ring. Qed.
 
+Lemma qsum_map_ext : forall (A : Type) (f g : A -> Q) l,
+  (forall x, In x l -> f x == g x) -> qsum (map f l) == qsum (map g l).
+Proof.
+  induction l; intros; simpl; [reflexivity|].
+  rewrite IHl by (intros; apply H; right; auto). rewrite (H a) by (left; auto). reflexivity.
+Qed.
+
 Lemma psum_ext : forall f g a n,
   (forall x, a <= x < a + n -> f x == g x) -> psum f a n == psum g a n.
 Proof.
@@ -559,3 +566,232 @@ Proof.
       exfalso. apply (Qlt_irrefl x). eapply Qlt_le_trans; [exact F2|].
       eapply Qle_trans; [|exact A]. rewrite <- Zle_Qle. lia.
 Qed.
+
+(* ================================================================ one plane *)
+
+Lemma zsum_app : forall l1 l2, zsum (l1 ++ l2) = zsum l1 + zsum l2.
+Proof. induction l1; intros; simpl; [reflexivity | rewrite IHl1; lia]. Qed.
+
+Lemma zsum_map_plus1 : forall (f : Z -> Z) l,
+  zsum (map (fun k => f k + 1) l) = zsum (map f l) + Z.of_nat (length l).
+Proof. induction l; simpl; [reflexivity | rewrite IHl; lia]. Qed.
+
+Lemma zsum_map_ext : forall (f g : Z -> Z) l,
+  (forall x, In x l -> f x = g x) -> zsum (map f l) = zsum (map g l).
+Proof.
+  induction l; intros; simpl; [reflexivity|].
+  rewrite IHl by (intros; apply H; right; auto). rewrite (H a) by (left; auto). reflexivity.
+Qed.
+
+Lemma zrange_length : forall a n, Z.of_nat (length (zrange a n)) = Z.max 0 n.
+Proof. intros. rewrite zrange_span, span_length. lia. Qed.
+
+Lemma sumQ_flat_map : forall (A B : Type) (g : B -> Q) (h : A -> list B) l,
+  sumQ (map g (flat_map h l)) == qsum (map (fun x => sumQ (map g (h x))) l).
+Proof.
+  induction l; simpl; [reflexivity|].
+  rewrite map_app. change sumQ with qsum in *. rewrite qsum_app. rewrite IHl. reflexivity.
+Qed.
+
+Lemma length_flat_map : forall (A B : Type) (h : A -> list B) l,
+  Z.of_nat (length (flat_map h l)) = zsum (map (fun x => Z.of_nat (length (h x))) l).
+Proof.
+  induction l; simpl; [reflexivity|]. rewrite app_length. lia.
+Qed.
+
+Section PlaneProofs.
+  Variables (nr nc ncR : Z) (crossL crossR : Z -> Z -> arms) (d : Q) (cv : Z -> Z -> option Q).
+  Variables (armL armR : dir -> Z -> Z -> Z).
+  Hypothesis Hnr : 1 <= nr.
+  Hypothesis Hnc : 1 <= nc.
+  (* the arm tables hold the arms ... *)
+  Hypothesis HL : forall r c, 0 <= r < nr -> 0 <= c < nc ->
+    crossL r c = mkArms (armL DLeft r c) (armL DRight r c) (armL DUp r c) (armL DDown r c).
+  Hypothesis HR : forall r c, 0 <= r < nr -> 0 <= c < ncR ->
+    crossR r c = mkArms (armR DLeft r c) (armR DRight r c) (armR DUp r c) (armR DDown r c).
+  (* ... and an arm never leaves its image *)
+  Hypothesis BL : forall r c, 0 <= r < nr -> 0 <= c < nc ->
+    0 <= armL DLeft r c <= c /\ 0 <= armL DRight r c <= nc - 1 - c /\
+    0 <= armL DUp r c <= r /\ 0 <= armL DDown r c <= nr - 1 - r.
+  Hypothesis BR : forall dd r c, 0 <= r < nr -> 0 <= c < ncR -> 0 <= armR dd r c.
+
+  Let shift := Qfloor d.
+  Let ca := carm armL armR shift.
+  Let costs (r : Z) := fun j => nz (cv r j).
+
+  Lemma corr_shift : forall c, corr d c = c + shift.
+  Proof. intros. unfold corr, shift. apply Qfloor_plus_Z. Qed.
+
+  Lemma valid_corr : forall c, valid_col ncR d c = true -> 0 <= c + shift < ncR.
+  Proof. intros. apply valid_col_iff. auto. Qed.
+
+  Lemma arms_combined : forall r c, 0 <= r < nr -> 0 <= c < nc -> valid_col ncR d c = true ->
+    h_left crossL crossR d r c = ca DLeft r c /\ h_right crossL crossR d r c = ca DRight r c /\
+    v_top crossL crossR d r c = ca DUp r c /\ v_bot crossL crossR d r c = ca DDown r c.
+  Proof.
+    intros r c Hr Hc Hv. apply valid_corr in Hv.
+    unfold h_left, h_right, v_top, v_bot, ca, carm.
+    rewrite corr_shift. rewrite HL, HR by lia. simpl. auto.
+  Qed.
+
+  Lemma ca_bounds : forall r c, 0 <= r < nr -> 0 <= c < nc -> valid_col ncR d c = true ->
+    0 <= ca DLeft r c <= c /\ 0 <= ca DRight r c <= nc - 1 - c /\
+    0 <= ca DUp r c <= r /\ 0 <= ca DDown r c <= nr - 1 - r.
+  Proof.
+    intros r c Hr Hc Hv. apply valid_corr in Hv.
+    destruct (BL r c Hr Hc) as (B1 & B2 & B3 & B4).
+    pose proof (BR DLeft r (c + shift) Hr Hv). pose proof (BR DRight r (c + shift) Hr Hv).
+    pose proof (BR DUp r (c + shift) Hr Hv). pose proof (BR DDown r (c + shift) Hr Hv).
+    unfold ca, carm. lia.
+  Qed.
+
+  (* step 2 = sum of the costs over the horizontal arms (telescoping of step 1) *)
+  Lemma step2_is_arm_sum : forall s1 r c,
+    (forall r' c', 0 <= r' < nr -> 0 <= c' < nc + 1 -> s1 r' c' = step1 nc cv r' c') ->
+    0 <= r < nr -> 0 <= c < nc -> valid_col ncR d c = true ->
+    step2 nc ncR crossL crossR d s1 r c
+    == psum (costs r) (c - ca DLeft r c) (ca DLeft r c + ca DRight r c + 1).
+  Proof.
+    intros s1 r c Hs1 Hr Hc Hv.
+    destruct (arms_combined r c Hr Hc Hv) as (E1 & E2 & _ & _).
+    destruct (ca_bounds r c Hr Hc Hv) as (B1 & B2 & _ & _).
+    unfold step2. rewrite Hv, E1, E2.
+    rewrite qsub_ok.
+    assert (W : 0 <= wrap (nc + 1) (c - ca DLeft r c - 1) < nc + 1).
+    { unfold wrap. destruct (c - ca DLeft r c - 1 <? 0) eqn:E; lia. }
+    rewrite !Hs1 by lia. unfold step1.
+    replace (c - ca DLeft r c - 1) with ((c - ca DLeft r c) - 1) by lia.
+    rewrite step1_diff by lia. unfold costs.
+    replace (c + ca DRight r c - (c - ca DLeft r c) + 1) with (ca DLeft r c + ca DRight r c + 1) by lia.
+    reflexivity.
+  Qed.
+
+  Lemma sum2_is_arm_count : forall r c,
+    0 <= r < nr -> 0 <= c < nc -> valid_col ncR d c = true ->
+    sum2 ncR crossL crossR d r c = ca DLeft r c + ca DRight r c.
+  Proof.
+    intros r c Hr Hc Hv.
+    destruct (arms_combined r c Hr Hc Hv) as (E1 & E2 & _ & _).
+    unfold sum2. rewrite Hv, E1, E2. lia.
+  Qed.
+
+  (* step 4 = sum of step 2 over the vertical arm (telescoping of step 3) *)
+  Lemma step4_is_column_sum : forall s2 s3 r c,
+    (forall r' c', 0 <= r' < nr + 1 -> 0 <= c' < nc -> s3 r' c' = step3 nr s2 r' c') ->
+    0 <= r < nr -> 0 <= c < nc -> valid_col ncR d c = true ->
+    step4 nr ncR crossL crossR d s3 r c
+    == psum (fun k => s2 k c) (r - ca DUp r c) (ca DUp r c + ca DDown r c + 1).
+  Proof.
+    intros s2 s3 r c Hs3 Hr Hc Hv.
+    destruct (arms_combined r c Hr Hc Hv) as (_ & _ & E3 & E4).
+    destruct (ca_bounds r c Hr Hc Hv) as (_ & _ & B3 & B4).
+    unfold step4. rewrite Hv, E3, E4. rewrite qsub_ok.
+    assert (W : 0 <= wrap (nr + 1) (r - ca DUp r c - 1) < nr + 1).
+    { unfold wrap. destruct (r - ca DUp r c - 1 <? 0) eqn:E; lia. }
+    rewrite !Hs3 by lia. unfold step3.
+    replace (r - ca DUp r c - 1) with ((r - ca DUp r c) - 1) by lia.
+    rewrite step3_diff by lia.
+    replace (r + ca DDown r c - (r - ca DUp r c) + 1) with (ca DUp r c + ca DDown r c + 1) by lia.
+    reflexivity.
+  Qed.
+
+  (* the support count: sum4 + 1 (anchor) = number of pixels of the region *)
+  Lemma sum4_is_region_size : forall sm2 r c,
+    (forall r' c', 0 <= r' < nr -> 0 <= c' < nc -> sm2 r' c' = sum2 ncR crossL crossR d r' c') ->
+    0 <= r < nr -> 0 <= c < nc -> valid_col ncR d c = true ->
+    sum4 ncR crossL crossR d sm2 r c + 1 = Z.of_nat (length (region armL armR shift r c)).
+  Proof.
+    intros sm2 r c Hsm Hr Hc Hv.
+    destruct (arms_combined r c Hr Hc Hv) as (_ & _ & E3 & E4).
+    destruct (ca_bounds r c Hr Hc Hv) as (_ & _ & B3 & B4).
+    unfold sum4. rewrite Hv, E3, E4. cbv zeta.
+    set (top := ca DUp r c) in *. set (bot := ca DDown r c) in *.
+    assert (T : (if top =? 0 then 0 else zsum (map (fun k => sm2 k c) (zrange (r - top) top)))
+                = zsum (map (fun k => sm2 k c) (zrange (r - top) top))).
+    { destruct (top =? 0) eqn:E; auto. rewrite zrange_nil by lia. reflexivity. }
+    assert (B : (if bot =? 0 then 0 else zsum (map (fun k => sm2 k c) (zrange (r + 1) bot)))
+                = zsum (map (fun k => sm2 k c) (zrange (r + 1) bot))).
+    { destruct (bot =? 0) eqn:E; auto. rewrite zrange_nil by lia. reflexivity. }
+    rewrite T, B.
+    unfold region. fold ca. fold top. fold bot.
+    rewrite length_flat_map. rewrite <- zrange_span.
+    rewrite (zsum_map_ext (fun x => Z.of_nat (length (hspan armL armR shift x c))) (fun k => sm2 k c + 1)).
+    2:{ intros k Hk. apply in_zrange in Hk. unfold hspan. rewrite map_length, span_length.
+        assert (Hk' : 0 <= k < nr) by lia.
+        destruct (ca_bounds k c Hk' Hc Hv) as (C1 & C2 & _ & _).
+        rewrite Hsm by lia. rewrite sum2_is_arm_count by auto. fold ca. lia. }
+    rewrite zsum_map_plus1, zrange_length.
+    replace (top + bot + 1) with (top + (1 + bot)) by lia.
+    rewrite zrange_app by lia. replace (r - top + top) with r by lia.
+    rewrite (zrange_app r 1 bot) by lia. rewrite zrange_one.
+    rewrite !map_app, !zsum_app. cbn [map zsum fold_right]. lia.
+  Qed.
+  (* steps 1-4 composed: the numerator is the sum of the computable costs over the region *)
+  Lemma step4_is_region_sum : forall s1 s2 s3 r c,
+    (forall r' c', 0 <= r' < nr -> 0 <= c' < nc + 1 -> s1 r' c' = step1 nc cv r' c') ->
+    (forall r' c', 0 <= r' < nr -> 0 <= c' < nc -> s2 r' c' = step2 nc ncR crossL crossR d s1 r' c') ->
+    (forall r' c', 0 <= r' < nr + 1 -> 0 <= c' < nc -> s3 r' c' = step3 nr s2 r' c') ->
+    0 <= r < nr -> 0 <= c < nc -> valid_col ncR d c = true ->
+    step4 nr ncR crossL crossR d s3 r c
+    == sumQ (map (fun p => cost_or_0 (cv (fst p) (snd p))) (region armL armR shift r c)).
+  Proof.
+    intros s1 s2 s3 r c Hs1 Hs2 Hs3 Hr Hc Hv.
+    destruct (ca_bounds r c Hr Hc Hv) as (_ & _ & B3 & B4).
+    rewrite (step4_is_column_sum s2 s3) by auto.
+    unfold region. rewrite sumQ_flat_map. fold ca. rewrite <- zrange_span.
+    unfold psum.
+    apply qsum_map_ext. intros k Hk. apply in_zrange in Hk.
+    assert (Hk' : 0 <= k < nr) by lia.
+    rewrite Hs2 by lia. rewrite (step2_is_arm_sum s1) by auto.
+    unfold hspan. rewrite map_map. cbn [fst snd]. fold ca. rewrite <- zrange_span. reflexivity.
+  Qed.
+
+  (* the pixel belongs to its region: the normalisation never divides by zero *)
+  Lemma region_has_anchor : forall r c, 0 <= r < nr -> 0 <= c < nc -> valid_col ncR d c = true ->
+    In (r, c) (region armL armR shift r c).
+  Proof.
+    intros r c Hr Hc Hv.
+    destruct (ca_bounds r c Hr Hc Hv) as (B1 & B2 & B3 & B4).
+    unfold region. apply in_flat_map. exists r. fold ca. split.
+    - apply in_span. lia.
+    - unfold hspan. apply in_map_iff. exists c. split; auto. fold ca. apply in_span. lia.
+  Qed.
+
+  (* the cost is not computable where the correspondent falls outside the right image (C02) *)
+  Hypothesis Hguard : forall r c, 0 <= r < nr -> 0 <= c < nc -> valid_col ncR d c = false -> cv r c = None.
+
+  Theorem plane_out_spec : forall r c, 0 <= r < nr -> 0 <= c < nc ->
+    lookup None (plane_out nr nc ncR crossL crossR d cv) r c
+    = match cv r c with
+      | None => None
+      | Some _ => Some (Qred (region_mean armL armR shift cv r c))
+      end.
+  Proof.
+    intros r c Hr Hc. unfold plane_out. cbv zeta.
+    set (s1 := lookup 0%Q (tabulate nr (nc + 1) (step1 nc cv))).
+    set (s2 := lookup 0%Q (tabulate nr nc (step2 nc ncR crossL crossR d s1))).
+    set (sm2 := lookup 0 (tabulate nr nc (sum2 ncR crossL crossR d))).
+    set (s3 := lookup 0%Q (tabulate (nr + 1) nc (step3 nr s2))).
+    rewrite lookup_tabulate by lia.
+    destruct (cv r c) eqn:Ecv; [|reflexivity].
+    destruct (valid_col ncR d c) eqn:Hv.
+    2:{ rewrite Hguard in Ecv by auto. discriminate. }
+    cbn [nan_mask oq_add oq_div]. f_equal. apply Qred_complete.
+    unfold region_mean.
+    rewrite (sum4_is_region_size sm2) by (auto; intros; unfold sm2; apply lookup_tabulate; lia).
+    rewrite qadd_ok.
+    rewrite (step4_is_region_sum s1 s2 s3); auto.
+    - unfold Qdiv. ring.
+    - intros; unfold s1; apply lookup_tabulate; lia.
+    - intros; unfold s2; apply lookup_tabulate; lia.
+    - intros; unfold s3; apply lookup_tabulate; lia.
+  Qed.
+
+  (* NaN stays NaN and nothing else becomes NaN (costs are finite or NaN: no +-inf) *)
+  Theorem plane_out_nan : forall r c, 0 <= r < nr -> 0 <= c < nc ->
+    (lookup None (plane_out nr nc ncR crossL crossR d cv) r c = None <-> cv r c = None).
+  Proof.
+    intros r c Hr Hc. unfold plane_out. cbv zeta. rewrite lookup_tabulate by lia.
+    destruct (cv r c); cbn [nan_mask oq_add oq_div]; split; intros; congruence.
+  Qed.
+End PlaneProofs.
